@@ -1,0 +1,68 @@
+//go:build verif
+
+package rtree
+
+import "fmt"
+
+// VerifCheck reports violations of structural invariants of the tree that
+// searches cannot reveal directly. It exists only under the verif build tag
+// and is used by external runtime monitors.
+//
+// Checked: every node has 1..maxEntries entries (the root of an empty tree is
+// nil); record entries and child entries are not mixed within a node; the box
+// stored for a child entry equals the exact bound of that child; no node is
+// reachable twice; the number of record entries equals Count(). Equal leaf
+// depth and a minimum fill are deliberately not checked (the bulk loader
+// legitimately produces leaves at depths differing by one).
+func (t *RTree) VerifCheck() []string {
+	var out []string
+	if t.root == nil {
+		if t.count != 0 {
+			out = append(out, fmt.Sprintf("nil root but count=%d", t.count))
+		}
+		return out
+	}
+	seen := map[*node]bool{}
+	records := 0
+	var walk func(n *node, depth int)
+	walk = func(n *node, depth int) {
+		if seen[n] {
+			out = append(out, fmt.Sprintf("node reachable twice at depth %d", depth))
+			return
+		}
+		seen[n] = true
+		if n.numEntries < 1 || n.numEntries > maxEntries {
+			out = append(out, fmt.Sprintf("node at depth %d has %d entries", depth, n.numEntries))
+			if n.numEntries < 1 {
+				return
+			}
+			if n.numEntries > maxEntries {
+				return
+			}
+		}
+		leaf, branch := 0, 0
+		for i := 0; i < n.numEntries; i++ {
+			e := n.entries[i]
+			if e.child == nil {
+				leaf++
+				records++
+				continue
+			}
+			branch++
+			if e.child.numEntries >= 1 && e.child.numEntries <= maxEntries {
+				if b := calculateBound(e.child); b != e.box {
+					out = append(out, fmt.Sprintf("depth %d entry %d: stored box %v != bound of child %v", depth, i, e.box, b))
+				}
+			}
+			walk(e.child, depth+1)
+		}
+		if leaf > 0 && branch > 0 {
+			out = append(out, fmt.Sprintf("node at depth %d mixes %d record and %d child entries", depth, leaf, branch))
+		}
+	}
+	walk(t.root, 0)
+	if records != t.count {
+		out = append(out, fmt.Sprintf("%d record entries reachable but Count()=%d", records, t.count))
+	}
+	return out
+}
